@@ -192,3 +192,158 @@ def snapshot_sig(sig):
     return (params_data(sig), [(k, list(map(id, v)) if k != '+depths' else sorted((id(f), d) for f, d in v.items()))
                                for k, v in sig.sources.items()], id(sig.sources),
             [(id(p), id(p.sources), list(map(id, p.sources))) for p in sig.parameters.values()])
+
+
+# --------------------------------------------------------------------------- mask
+def _sig_equal_data(a, b):
+    return params_data(a) == params_data(b) and a.return_annotation == b.return_annotation
+
+
+def _src_equal(a, b):
+    ka = {k: list(map(id, v)) for k, v in a.sources.items() if k != '+depths'}
+    kb = {k: list(map(id, v)) for k, v in b.sources.items() if k != '+depths'}
+    da = {id(f): d for f, d in a.sources.get('+depths', {}).items()}
+    db = {id(f): d for f, d in b.sources.get('+depths', {}).items()}
+    return ka == kb and da == db
+
+
+def check_meta_subset(sig, res, allow_partial_defaults=None):
+    """C10/C11 on a mask-like result: every parameter is sig's parameter of that name, data unchanged,
+    kind equal or pok -> kwo / po"""
+    bad = []
+    order = []
+    names = list(sig.parameters)
+    for p in res.parameters.values():
+        o = sig.parameters.get(p.name)
+        if o is None:
+            if allow_partial_defaults is not None and p.name in allow_partial_defaults:
+                continue
+            bad.append(('post:hide_only_removes:every_parameter_from_sig', p.name))
+            continue
+        if not (p.kind == o.kind or (o.kind == o.POSITIONAL_OR_KEYWORD and p.kind == p.KEYWORD_ONLY)):
+            bad.append(('post:meta_unchanged_but_kind', '%s kind %s -> %s' % (p.name, o.kind, p.kind)))
+        exp_default = o.default
+        if allow_partial_defaults is not None and p.name in allow_partial_defaults:
+            exp_default = allow_partial_defaults[p.name]
+        if p.default != exp_default or p.annotation != o.annotation:
+            bad.append(('post:meta_unchanged_but_kind', '%s default/annotation changed' % p.name))
+        if p.upgraded_annotation.source_value() != p.annotation:
+            bad.append(('post:ua_follows', p.name))
+        if p.kind in (p.POSITIONAL_ONLY, p.POSITIONAL_OR_KEYWORD):
+            order.append(names.index(p.name))
+    if order != sorted(order):
+        bad.append(('post:meta_unchanged_but_kind:order', repr(order)))
+    if res.return_annotation != sig.return_annotation or res.upgraded_return_annotation.source_value() != res.return_annotation:
+        bad.append(('post:ua_follows:return', 'return annotation'))
+    return bad
+
+
+def check_mask(sig, n, names, flags, outcome, maxn=None):
+    real_sigtools()
+    from sigtools import _signatures
+    bad = []
+    v = cview(sig)
+    nohide = not any(flags.values())
+    distinct = len(set(names)) == len(names)
+    po = {p.name for p in sig.parameters.values() if p.kind == p.POSITIONAL_ONLY}
+    applicable = distinct and not (set(names) & po)
+    pool = list(sig.parameters) + [x for x in names if x not in sig.parameters]
+    if maxn is None:
+        maxn = npos(sig) + 2
+    shapes_ = [(m, ks) for m, ks in call_shapes(pool, maxn) if not set(ks) & set(names)]
+    if outcome[0] == 'raise':
+        e = outcome[1]
+        if not isinstance(e, ValueError):
+            bad.append(('raises:only_ValueError:type', repr(e)))
+        elif nohide and applicable:
+            for m, ks in shapes_:
+                if real_accepts(v, n + m, tuple(ks) + tuple(names)):
+                    bad.append(('raises:only_if_impossible', 'sig accepts residual of call %r' % ((m, ks),)))
+                    break
+        return bad
+    res = outcome[1]
+    rv = cview(res)
+    if not isinstance(res, _signatures.UpgradedSignature) or not all(isinstance(p, _signatures.UpgradedParameter) for p in res.parameters.values()) \
+            or '+depths' not in getattr(res, 'sources', {}):
+        bad.append(('post:wellformed:upgraded_with_depths', 'not upgraded'))
+    if nohide and applicable:
+        for m, ks in shapes_:
+            if not spec.noncolliding(PyOps, rv, [v], ccall(m, ks)):
+                continue
+            a = real_accepts(rv, m, ks)
+            e = real_accepts(v, n + m, tuple(ks) + tuple(names))
+            if a != e:
+                bad.append(('post:exact', 'call %r: result %s, sig with residual %s' % ((m, ks), a, e)))
+                break
+    for p in res.parameters.values():
+        if flags.get('hide_args') and p.kind in (p.POSITIONAL_ONLY, p.POSITIONAL_OR_KEYWORD, p.VAR_POSITIONAL):
+            bad.append(('post:hide_only_removes', p.name))
+        if flags.get('hide_kwargs') and p.kind in (p.POSITIONAL_OR_KEYWORD, p.KEYWORD_ONLY, p.VAR_KEYWORD):
+            bad.append(('post:hide_only_removes', p.name))
+        if flags.get('hide_varargs') and p.kind == p.VAR_POSITIONAL:
+            bad.append(('post:hide_only_removes', p.name))
+        if flags.get('hide_varkwargs') and p.kind == p.VAR_KEYWORD:
+            bad.append(('post:hide_only_removes', p.name))
+    bad += check_meta_subset(sig, res)
+    if not nohide and applicable:
+        L = npos(sig)
+        sn = list(sig.parameters)
+        for m, ks in shapes_:
+            if not spec.noncolliding(PyOps, rv, [v], ccall(m, ks)) or not real_accepts(rv, m, ks):
+                continue
+            ha, hk, hva, hvk = (flags.get(k) for k in ('hide_args', 'hide_kwargs', 'hide_varargs', 'hide_varkwargs'))
+            posr = range(0, L + 3) if ha else ([n + m + e for e in range(0, 3)] if hva else [n + m])
+            base_k = tuple(ks) if hk else tuple(ks) + tuple(names)
+            extra_pool = [x for x in sn + ['zz', 'yy'] if x not in base_k] if (hk or hvk) else []
+            ok = False
+            for tp in posr:
+                for ek in range(len(extra_pool) + 1):
+                    for eks in itertools.combinations(extra_pool, ek):
+                        if real_accepts(v, tp, base_k + tuple(eks)):
+                            ok = True
+                            break
+                    if ok:
+                        break
+                if ok:
+                    break
+            if not ok:
+                bad.append(('post:hide_sound', 'call %r accepted by the result but by sig for no choice of hidden arguments' % ((m, ks),)))
+                break
+    for c, d in check_sources_wf(res, fn_declares):
+        bad.append(('post:' + c, d))
+    for k, lst in res.sources.items():
+        if k != '+depths' and any(f not in sig.sources.get(k, []) for f in lst):
+            bad.append(('post:sources_wf:from_input', k))
+    if res.sources.get('+depths') != sig.sources.get('+depths'):
+        bad.append(('post:depths_unchanged', repr(res.sources.get('+depths'))))
+    if res.sources is sig.sources or any(v2 is v1 for v1 in res.sources.values() for v2 in sig.sources.values()):
+        bad.append(('frame:fresh_sources', 'shared provenance container'))
+    return bad
+
+
+def check_mask_laws(sig, n, names, mode, m=0):
+    real_sigtools()
+    from sigtools import _signatures
+    bad = []
+
+    def same(a, b, law):
+        if a[0] != b[0]:
+            bad.append((law + ':same_outcome', '%r vs %r' % (a, b)))
+        elif a[0] == 'return':
+            if params_data(a[1]) != params_data(b[1]):
+                bad.append((law + ':parameters', '%s vs %s' % (a[1], b[1])))
+            if not _src_equal(a[1], b[1]):
+                bad.append((law + ':provenance', '%r vs %r' % (a[1].sources, b[1].sources)))
+            if a[1].return_annotation != b[1].return_annotation:
+                bad.append((law + ':return_annotation', ''))
+    if mode == 'order':
+        base = run_real(_signatures.mask, sig, n, *names)
+        for perm in itertools.permutations(names):
+            same(base, run_real(_signatures.mask, sig, n, *perm), 'law:order_independent')
+    elif mode == 'zero':
+        same(run_real(_signatures.mask, sig, 0), ('return', sig), 'law:mask_zero')
+    elif mode == 'maskmask':
+        a1 = run_real(_signatures.mask, sig, n)
+        a = run_real(_signatures.mask, a1[1], m) if a1[0] == 'return' else a1
+        same(a, run_real(_signatures.mask, sig, n + m), 'law:mask_mask')
+    return bad
